@@ -4,6 +4,6 @@ From GoPdf.Base Require Import WireAnchor.
 From GoPdf.Gen Require Import Gen_Perm.
 From GoPdf.C09 Require Import MD5 RC4 SHA2 AES Pkcs7 StdSec ParseModel.
 Separate Extraction wire_anchor md5 rc4 sha256 sha384 sha512 aes_encrypt_block aes_decrypt_block
-  pad_passwd trunc_passwd authenticate open_handler create_legacy create6 create5 choose_R key_for_ref
+  pad_passwd trunc_passwd authenticate open_handler open_handler_prep create_legacy create6 create5 choose_R key_for_ref
   encrypt_bytes decrypt_bytes encrypt_stream decrypt_stream read_stream parse_and_open as_dict writer_cipher as_dict_V as_dict_keys
   stdSecPermToP stdSecPToPerm canR2 slow_hash pad unpad.
